@@ -6,6 +6,7 @@ a .p8 file written and re-read by the real formatter; the oracle is the identity
 table properties named in the statement (distinct spellings, prefix-freeness, UTF-8 encodable).
 """
 import io
+from .. import ambient
 
 LEVEL = 'exploration'
 RULE = ('all 256 single bytes and all 65,536 ordered byte pairs enumerated completely; plus random '
@@ -144,7 +145,7 @@ def run_shard(spec, ctx):
                         p8file.to_file(g, p1)
                         open(p1, 'rb').read().decode('utf-8')
                         if entry == 'cli':
-                            if tool.main(['-q', 'writep8', p1]):
+                            if tool.main([ambient.vflag(), 'writep8', p1]):
                                 raise RuntimeError('writep8 failed')
                             g2 = p8file.from_file(os.path.join(d, 'c_fmt.p8'))
                         else:
@@ -181,7 +182,7 @@ def p8_roundtrip(code, version, entry, writer=None):
             p8file.to_file(g, p1, **kw)
             open(p1, 'rb').read().decode('utf-8')
             if entry == 'cli':
-                if tool.main(['-q', 'writep8', p1]):
+                if tool.main([ambient.vflag(), 'writep8', p1]):
                     raise RuntimeError('writep8 failed')
                 g2 = p8file.from_file(os.path.join(d, 'c_fmt.p8'))
             else:
